@@ -183,6 +183,27 @@ theorem empty_object_breaks_wire (P : ProtoCfg) (hP : P.noneSingle = .emptyObjec
     unwrapWrapped P s 1 (Val.none :: rest) = .obj cls (fs.map fun f => (f, Val.none)) :=
   emptyObject_breaks P hP s cls fs hr rest
 
+/-- a declared return type is handed to the direct caller as it is — in particular an instance of
+    a class WITHOUT members (a plain acknowledgement object), in every body style: only the
+    response wrapper the decorator synthesises means "nothing comes back" -/
+theorem declared_return_delivered (s : Sig) (k : RetKind) (hk : s.returns = .one k) (r : Val)
+    (hr : r.isIgnored = false) : cbSync facts18 s (wrapOut facts18 s r) = .ok r :=
+  cbSync_declared_one facts18 (by decide) s k hk r hr
+
+/-- `_is_empty_wrapper` without its `_wrapper` test: a bare/out_bare method that returns an instance
+    of a member-less class hands `None` to the direct caller (the wire sends an empty object) -/
+theorem members_only_breaks_null (F : Facts18) (hc : F.cbOrder = .noReturnFirst)
+    (hw : F.ewWrapper = false) (s : Sig) (k : RetKind) (hst : s.style ≠ .wrapped)
+    (hk : s.returns = .one k) (h0 : k.complexFields = some 0) (r : Val) (hr : r.isIgnored = false) :
+    cbSync F s (.seq [r]) = .ok .none :=
+  membersOnly_breaks F hc hw s k hst hk h0 r hr
+
+/-- `_is_empty_wrapper` without its member count: every wrapped method returns `None` -/
+theorem wrapper_only_breaks_null (F : Facts18) (hc : F.cbOrder = .noReturnFirst)
+    (hm : F.ewMembers = false) (s : Sig) (hst : s.style = .wrapped) (r : Val)
+    (hr : r.isIgnored = false) : cbSync F s (.seq [r]) = .ok .none :=
+  wrapperOnly_breaks F hc hm s hst r hr
+
 /-! ### non-vacuity: concrete signatures, programs and calls that meet the hypotheses -/
 
 section examples
@@ -250,6 +271,23 @@ example : nullCall facts18 sB echo1 [.int 5] [("b", .str "q")]
     = .ok (.obj "P" [("a", .int 5), ("b", .str "q")]) := rfl
 example : wireCall facts18 facts18.xml id sB echo1 [.int 5] [("b", .str "q")]
     = .ok (.obj "P" [("a", .int 5), ("b", .str "q")]) := rfl
+/-- `@srpc(Integer, _returns=Ack, _body_style='out_bare')` and `@srpc(_returns=Ack, _body_style='bare')`
+    with `class Ack(ComplexModel): pass`: the instance reaches both callers; `None` stays `None` -/
+example : let s : Sig := ⟨.outBare, ["n"], none, .one (.complex "Ack" [])⟩
+    s.bodyStyle = .outBare ∧ s.noReturn = false ∧
+    nullCall facts18 s (fun _ => .value (.obj "Ack" [])) [.int 1] [] = .ok (.obj "Ack" []) ∧
+    wireCall facts18 facts18.json id s (fun _ => .value (.obj "Ack" [])) [.int 1] [] = .ok (.obj "Ack" []) ∧
+    nullCall facts18 s (fun _ => .value .none) [.int 0] [] = .ok .none := ⟨rfl, rfl, rfl, rfl, rfl⟩
+example : let s : Sig := ⟨.bare, [], none, .one (.complex "Ack" [])⟩
+    s.bodyStyle = .empty ∧
+    nullCall facts18 s (fun _ => .value (.obj "Ack" [])) [] [] = .ok (.obj "Ack" []) ∧
+    wireCall facts18 facts18.xml id s (fun _ => .value (.obj "Ack" [])) [] [] = .ok (.obj "Ack" []) :=
+  ⟨rfl, rfl, rfl⟩
+/-- the seeded defect in the model: with `ewWrapper := false` the direct caller loses the instance -/
+example : let F := { facts18 with ewWrapper := false }
+    nullCall F ⟨.outBare, ["n"], none, .one (.complex "Ack" [])⟩ (fun _ => .value (.obj "Ack" [])) [.int 1] []
+      = .ok .none := rfl
+
 /-- Ignored with two declared return values -/
 example : nullCall facts18 sW (fun _ => .value (.ignored (.int 7))) [] [] = .ok (.ignored (.int 7)) ∧
     wireCall facts18 facts18.xml id sW (fun _ => .value (.ignored (.int 7))) [] []
